@@ -77,9 +77,12 @@ LenRef(x) == IF x.kind # "str" THEN "TypeError"
              ELSE "None"
 
 (* ---- UUIDs ---------------------------------------------------------------- *)
+\* corruptions that int(x, 16) would forgive: blanks around, a sign, a 0x prefix, digit-group underscores
+UuidBad == {"none", "g_inside", "space_inside", "space_front", "space_end", "plus_front", "0x_front",
+            "underscore_inside", "newline_end"}
 Decor == {"plain", "hyphenated", "braced", "urn", "urn_braced_hyph", "upper", "upper_hyph"}
 UuidCases == {[k |-> "uuid", n |-> n, bad |-> b, decor |-> d] :
-                n \in 30..34, b \in {"none", "g_inside", "space_inside"}, d \in Decor}
+                n \in 30..34, b \in UuidBad, d \in Decor}
         \cup {[k |-> "uuidobj", obj |-> o] : o \in {"None", "int", "bytes", "empty", "uuid_object"}}
 UuidRef(x) == x.n = 32 /\ x.bad = "none"
 
